@@ -225,7 +225,11 @@ def arith_worker(job):
         if plain != want:
             R.violation("subset-sum-differs", "plain subset-sum hash differs from the reference", backend=be, bits=bits)
         if L:
-            sec = gh.ggh_hash([(PrivValBool(b) if rnd.random() < 0.5 else PrivVal(b)) for b in bits])
+            try:
+                sec = gh.ggh_hash([(PrivValBool(b) if rnd.random() < 0.5 else PrivVal(b)) for b in bits])
+            except Exception as e:  # noqa
+                R.violation("subset-sum-raises-on-secret-bits", "traced subset-sum hash over secret bits raised %s: %s" % (type(e).__name__, str(e)[:100]), backend=be, bits=bits)
+                continue
             if sec.value % p != want or (sec.value - recorder.ev(sec.lc)) % p:
                 R.violation("subset-sum-differs", "traced subset-sum hash %s, reference %s" % (sec.value % p, want), backend=be, bits=bits)
             nb = len(recorder.constraints)
